@@ -420,6 +420,26 @@ Proof.
   apply in_map_iff. exists (sl, (name, k)). split; [reflexivity|exact H].
 Qed.
 
+(* ---------- numeric attribute values of every QVariant type ---------- *)
+(* the integer z carried by an int / uint / qlonglong / qulonglong / double / float within the range of the
+   type: a name that is not routed holds the number z under extra; a routed name (integer types) holds the
+   decimal digits of z in its slot - which identify z (JsonProofs.num_chars_inj) - and nothing under extra *)
+Theorem numeric_attribute_intact sdkn sdkv qtver eid m pre k t z post :
+  s_attrs m = pre ++ (k, num_value t z) :: post -> has_key k post = false -> num_in_range t z = true ->
+  (is_routed k = false -> get2 (event_members sdkn sdkv qtver eid m) k_extra k = Some (JNum z))
+  /\ (int_typed t = true -> forall sl name, In (sl, (name, k)) spec_routes ->
+        slot_get (event_members sdkn sdkv qtver eid m) sl name = Some (JStr (num_chars z))
+        /\ get2 (event_members sdkn sdkv qtver eid m) k_extra k = None).
+Proof.
+  intros Ea Hk Hr. pose proof (num_store_in_range t z Hr) as Hs. split.
+  - intros Hn. rewrite (other_attribute_in_extra sdkn sdkv qtver eid m k (num_value t z) pre post Ea Hk Hn).
+    unfold num_value. rewrite Hs. reflexivity.
+  - intros _ sl name Hin. split.
+    + rewrite (routed_attribute_in_slot sdkn sdkv qtver eid m sl name k (num_value t z) pre post Hin Ea Hk).
+      unfold num_value. rewrite Hs. reflexivity.
+    + apply routed_not_in_extra. exact (routed_in_spec sl name k Hin).
+Qed.
+
 (* ---------- what is NOT true of the faithful model: a routed name holding a list / map / null ---------- *)
 (* QVariant::toString() of such a value is the empty string: the slot holds "" and the attribute is
    excluded from extra, so its value occurs nowhere in the event *)
